@@ -57,6 +57,20 @@ func argApply(c argcase) string {
 		for x := 0; x < m.w; x++ {
 			m.b[a[0]*m.w+x] = sm.b[a[1]*m.w+x]
 		}
+	case "SetRowLonger":
+		// row a[0] := a scratch row that is LONGER than the matrix is wide (a[1] extra bits; one
+		// scratch BitArray serving matrices of several widths - GetRow invites that reuse). Its first
+		// `width` bits are the new row; what lies beyond the width does not exist in the matrix.
+		row := gozxing.NewBitArray(m.w + a[1])
+		for x := 0; x < m.w+a[1]; x++ {
+			if (x*7+a[2]*3+x/5)%3 != 0 || x >= m.w {
+				row.Set(x)
+			}
+		}
+		r.SetRow(a[0], row)
+		for x := 0; x < m.w; x++ {
+			m.b[a[0]*m.w+x] = row.Get(x)
+		}
 	case "GetRow":
 		row := r.GetRow(a[0], nil)
 		if row.GetSize() != m.w {
@@ -128,7 +142,7 @@ func argOne(l *mc.Local, c argcase) {
 
 func runArgProducts() {
 	const h = 3
-	chk.Range("BitMatrix argument products: for every width 1..130 (height 3, contents empty and striped): SetRegion for EVERY (left,width) with left+width <= w x (top,height) in {(0,3),(1,1),(2,1),(0,2)}, Set/Unset/Flip at EVERY (x,y), SetRow/GetRow for every row pair; out-of-range regions (negative origin, zero/negative size, one past the edge) refused without effect", 130,
+	chk.Range("BitMatrix argument products: for every width 1..130 (height 3, contents empty and striped): SetRegion for EVERY (left,width) with left+width <= w x (top,height) in {(0,3),(1,1),(2,1),(0,2)}, Set/Unset/Flip at EVERY (x,y), SetRow/GetRow for every row pair, SetRow from scratch rows 1..w+3 bits LONGER than the width (all bits beyond the width set); out-of-range regions (negative origin, zero/negative size, one past the edge) refused without effect", 130,
 		func(i int) string { return fmt.Sprint("w=", i+1) },
 		func(l *mc.Local, i int) {
 			w := i + 1
@@ -154,6 +168,9 @@ func runArgProducts() {
 						for _, k := range []int{1, 2, 3} {
 							argOne(l, argcase{"args", w, h, init, "SetRow", []int{y, y2, k}})
 						}
+					}
+					for _, extra := range []int{1, 6, 31, 32, 33, w + 3} {
+						argOne(l, argcase{"args", w, h, init, "SetRowLonger", []int{y, extra, y + init}})
 					}
 					argOne(l, argcase{"args", w, h, init, "GetRow", []int{y}})
 				}
